@@ -34,6 +34,18 @@ SM_PRIV_IF = ("        if alleged_writekey != node_writekey:\n"
               "                     parent=lp, level=log.WEIRD, umid=\"aJVccw\")\n"
               "            return\n")
 
+SHC_CB = ("        def _build_share_hash_chain(results):\n"
+          "            if self.shnum not in results:\n"
+          "                raise BadShareError(\"no data for shnum %d\" % self.shnum)\n"
+          "\n"
+          "            sharehashes = results[self.shnum][0]\n"
+          "            results = [sharehashes[i:i+(HASH_SIZE + 2)]\n"
+          "                       for i in range(0, len(sharehashes), HASH_SIZE + 2)]\n"
+          "            results = dict([struct.unpack(\">H32s\", data)\n"
+          "                            for data in results])\n"
+          "            return results\n")
+SHC_TAIL = SHC_CB + "        d.addCallback(_build_share_hash_chain)\n        d.addErrback(_handle_bad_struct)\n        return d\n"
+
 MUTANTS = [
     # ---- C10.1 fingerprint gate
     M("fp-compare-deleted", SM, FP_IF, "", "C10.1"),
@@ -270,6 +282,72 @@ MUTANTS = [
     M("trim-benign-dead-zero-length-case-removed", RET,
       "        if self._read_length == 0:\n            self.log(\"on first+last segment, size=0, using 0 bytes\")\n"
       "            segment = b\"\"\n", "", None),
+    # ---- C10.12 struct.error from malformed share bytes must become BadShareError inside the reader
+    M("sharehash-errback-before-unpack", LAY, SHC_TAIL,
+      "        d.addErrback(_handle_bad_struct)\n" + SHC_CB +
+      "        d.addCallback(_build_share_hash_chain)\n        return d\n", "C10.12"),
+    M("sharehash-errback-paired-with-unpack", LAY,
+      "        d.addCallback(_build_share_hash_chain)\n        d.addErrback(_handle_bad_struct)\n",
+      "        d.addCallbacks(_build_share_hash_chain, _handle_bad_struct)\n", "C10.12"),
+    M("header-errback-dropped", LAY,
+      "        d.addCallback(self._process_offsets)\n        d.addErrback(_handle_bad_struct)\n",
+      "        d.addCallback(self._process_offsets)\n", "C10.12"),
+    M("header-offsets-parsed-after-errback", LAY,
+      "        d.addCallback(self._process_offsets)\n        d.addErrback(_handle_bad_struct)\n",
+      "        d.addErrback(_handle_bad_struct)\n        d.addCallback(self._process_offsets)\n", "C10.12"),
+    M("bad-struct-handler-passes-failure-on", LAY,
+      "    f.trap(struct.error)\n    raise BadShareError(f.value.args[0])\n",
+      "    f.trap(struct.error)\n    return f\n", "C10.12"),
+    M("bad-struct-handler-traps-other-error", LAY,
+      "    f.trap(struct.error)\n    raise BadShareError(f.value.args[0])\n",
+      "    f.trap(IndexError)\n    raise BadShareError(f.value.args[0])\n", "C10.12"),
+    M("sharehash-unpacked-synchronously", LAY,
+      "        if needed == set([]):\n            return defer.succeed([])\n        d = self._maybe_fetch_offsets_and_header()\n\n"
+      "        def _make_readvs(ignored):\n            sharehashes_offset",
+      "        if needed == set([]):\n            return defer.succeed([])\n"
+      "        if self._data_is_everything and self._offsets:\n"
+      "            o = self._offsets['share_hash_chain']\n"
+      "            return defer.succeed(dict([struct.unpack(\">H32s\", self._data[i:i+(HASH_SIZE + 2)])\n"
+      "                                       for i in range(o, self._offsets['signature'], HASH_SIZE + 2)]))\n"
+      "        d = self._maybe_fetch_offsets_and_header()\n\n"
+      "        def _make_readvs(ignored):\n            sharehashes_offset", "C10.12"),
+    M("struct-benign-chained-registration", LAY,
+      "        d.addCallback(_build_share_hash_chain)\n        d.addErrback(_handle_bad_struct)\n        return d\n",
+      "        return d.addCallback(_build_share_hash_chain).addErrback(_handle_bad_struct)\n", None),
+    M("struct-benign-try-in-callback", LAY, SHC_TAIL,
+      "        def _build_share_hash_chain(results):\n"
+      "            if self.shnum not in results:\n"
+      "                raise BadShareError(\"no data for shnum %d\" % self.shnum)\n"
+      "\n"
+      "            sharehashes = results[self.shnum][0]\n"
+      "            results = [sharehashes[i:i+(HASH_SIZE + 2)]\n"
+      "                       for i in range(0, len(sharehashes), HASH_SIZE + 2)]\n"
+      "            try:\n"
+      "                results = dict([struct.unpack(\">H32s\", data)\n"
+      "                                for data in results])\n"
+      "            except struct.error as e:\n"
+      "                raise BadShareError(e.args[0])\n"
+      "            return results\n"
+      "        d.addCallback(_build_share_hash_chain)\n        return d\n", None),
+    M("struct-benign-extra-early-errback", LAY, SHC_TAIL,
+      "        d.addErrback(_handle_bad_struct)\n" + SHC_TAIL, None),
+    M("struct-benign-handler-uses-check", LAY,
+      "    f.trap(struct.error)\n    raise BadShareError(f.value.args[0])\n",
+      "    if not f.check(struct.error):\n        return f\n    raise BadShareError(f.value.args[0])\n", None),
+    # ---- C10.13 every bad-share report is a type _handle_bad_share tolerates
+    M("bad-share-trap-narrowed", RET, "        f.trap(DeadReferenceError, RemoteException, BadShareError)\n",
+      "        f.trap(DeadReferenceError, RemoteException, CorruptShareError)\n", "C10.13"),
+    M("bad-share-trap-network-errors-only", RET, "        f.trap(DeadReferenceError, RemoteException, BadShareError)\n",
+      "        f.trap(DeadReferenceError, RemoteException)\n", "C10.13"),
+    M("corrupt-share-error-rebased", "src/allmydata/mutable/common.py", "class CorruptShareError(BadShareError):",
+      "class CorruptShareError(Exception):", "C10.13"),
+    M("layout-invalid-rebased", LAY, "class LayoutInvalid(BadShareError):", "class LayoutInvalid(Exception):", "C10.13"),
+    M("bad-segment-number-valueerror", LAY, "                raise LayoutInvalid(\"Not a valid segment number\")\n",
+      "                raise ValueError(\"Not a valid segment number\")\n", "C10.13"),
+    M("trap-benign-reordered-and-explicit", RET, "        f.trap(DeadReferenceError, RemoteException, BadShareError)\n",
+      "        f.trap(BadShareError, CorruptShareError, RemoteException, DeadReferenceError)\n", None),
+    M("trap-benign-layout-invalid-as-base", LAY, "                raise LayoutInvalid(\"Not a valid segment number\")\n",
+      "                raise BadShareError(\"Not a valid segment number\")\n", None),
     # ---- vanished anchor
     M("vanish-validate-block", RET, "    async def _validate_block(self, results, segnum, reader, server, started):",
       "    async def _validate_blockX(self, results, segnum, reader, server, started):", "ANALYSIS-ERROR"),
